@@ -327,9 +327,9 @@ class TGen:
         if r < 0.83:
             return CALL('abs', self.rexpr(d - 1))
         if r < 0.93:
-            # MIN / MAX are variadic; arguments of mixed type promote to real
-            return CALL(rng.choice(('min', 'max')), *[self.rexpr(d - 1) if k == 0 or rng.random() < 0.7 else self.iexpr(d - 1)
-                                                      for k in range(self.nargs())])
+            # MIN / MAX are variadic; all arguments must have one type in Fortran, integer values enter through REAL(…)
+            return CALL(rng.choice(('min', 'max')), *[self.rexpr(d - 1) if k == 0 or rng.random() < 0.7
+                                                      else CALL('real', self.iexpr(d - 1)) for k in range(self.nargs())])
         if not self.loopvars and self.rng.random() < self.cfg['p_pow'] * 3:
             return BIN('pow', CALL('min', CALL('max', self.rexpr(d - 1), rlit(-4)), rlit(4)), I(2))
         return BIN('sub', self.rexpr(d - 1), BIN('add', self.rexpr(d - 1), self.rexpr(d - 1)))
